@@ -1301,3 +1301,31 @@ fn main() {}
 
 CERTS["uriref_compose"] = lambda: compose_cert(dfa.reference("rfc3986.abnf", "URI-reference"), dfa.reference("rfc3986.abnf", "scheme"), dfa.reference("rfc3986.abnf", "authority"),
                                                dfa.reference("rfc3986.abnf", "path"), dfa.reference("rfc3986.abnf", "query"), dfa.reference("rfc3986.abnf", "fragment"))
+
+
+def path_prefix_cert(PA, b_name="Path"):
+    """the three disambiguating prefixes "/", "/." and "./" keep a path a path"""
+    src = PRELUDE + "// %s: %d states\n" % (b_name, PA.n) + dfa._step_spec(b_name, PA) + "\n" + RUN.format(n=b_name) + """
+/// FACT: prefixing a valid path with "/", "/." or "./" gives a valid path
+pub proof fn comp_path_prefix(p: Seq<int>)
+    requires %(B)s_run(0, p),
+    ensures %(B)s_run(0, seq![47int] + p), %(B)s_run(0, seq![47int, 46int] + p), %(B)s_run(0, seq![46int, 47int] + p),
+{
+    let a = seq![47int] + p;
+    assert(a[0] == 47); assert(a.drop_first() =~= p);
+    assert(%(B)s_step(0, 47) == 0);
+    let b = seq![47int, 46int] + p;
+    assert(b[0] == 47); assert(b.drop_first()[0] == 46); assert(b.drop_first().drop_first() =~= p);
+    assert(%(B)s_step(0, 46) == 0);
+    assert(%(B)s_run(0, b.drop_first()));
+    let c = seq![46int, 47int] + p;
+    assert(c[0] == 46); assert(c.drop_first()[0] == 47); assert(c.drop_first().drop_first() =~= p);
+    assert(%(B)s_run(0, c.drop_first()));
+}
+} // verus!
+fn main() {}
+""" % {"B": b_name}
+    return src, {"pairs": 0, "lemmas": 1}
+
+
+CERTS["uri_path_prefix"] = lambda: path_prefix_cert(dfa.reference("rfc3986.abnf", "path"))
